@@ -148,4 +148,85 @@ def holds (tol : Rat) (n m : Nat) (aff : Mat) (out : List Entry) : Bool := (judg
 /-- matrix from its rows (missing entries read as 0; the driver checks the shape) -/
 def matOfRows (rows : List (List Rat)) : Mat := fun i j => (rows.getD i []).getD j 0
 
+/-! ### the first half of `match_geometries`: the dense affinity matrix
+
+`cost_matrix = np.zeros((len(source), len(target)))`, then one write
+`cost_matrix[i, j] = compute_affinity(source[i], target[j], …)` per element of
+`product(enumerate(source), enumerate(target))`.  `compute_affinity` (property C06) is a
+parameter `affinity : G → G → Rat` over an arbitrary type of geometries. -/
+
+abbrev Grid := List (List Rat)
+
+def zeros (n m : Nat) : Grid := List.replicate n (List.replicate m 0)
+
+/-- `cost_matrix[i, j] = x` (no effect out of range: the loop never writes there) -/
+def setCell (g : Grid) (i j : Nat) (x : Rat) : Grid := g.modify i (fun r => r.set j x)
+
+/-- `product(enumerate(source), enumerate(target))` with the value written for each pair -/
+def fillCells {G : Type} (affinity : G → G → Rat) (src tgt : List G) : List (Nat × Nat × Rat) :=
+  src.zipIdx.flatMap fun (a, i) => tgt.zipIdx.map fun (b, j) => (i, j, affinity a b)
+
+/-- the loop that fills the matrix -/
+def fillMatrix {G : Type} (affinity : G → G → Rat) (src tgt : List G) : Grid :=
+  (fillCells affinity src tgt).foldl (fun g c => setCell g c.1 c.2.1 c.2.2) (zeros src.length tgt.length)
+
+/-- `list(match_geometries(source, target))` with `compute_affinity` and
+    `linear_sum_assignment(·, maximize=True)` as parameters (the solver sees the filled matrix) -/
+def matchGeometries {G : Type} (affinity : G → G → Rat) (solver : Nat → Nat → Mat → List (Nat × Nat))
+    (src tgt : List G) : Except LoopErr (List Entry) :=
+  let aff := matOfRows (fillMatrix affinity src tgt)
+  selectMatches src.length tgt.length aff (solver src.length tgt.length aff)
+
+/-! ### optimality by certificate (linear-programming duality), for matrices of any size
+
+The brute force `bestValue` is factorial.  For large matrices the check computes (outside Lean,
+untrusted) row and column potentials `u`, `v` and a witness pairing `w`; `certOk` is the
+executable test that they certify the optimum: `u, v ≥ 0`, `aff i j ≤ u i + v j` everywhere,
+`w` a one-to-one pairing whose value is `Σ u + Σ v`.  `Proofs.C07.C07_cert_best` proves that then
+`bestValue n m aff = value aff w`. -/
+
+def sumRange (k : Nat) (f : Nat → Rat) : Rat := ((List.range k).map f).sum
+
+def dualFeasible (n m : Nat) (aff : Mat) (u v : Nat → Rat) : Bool :=
+  (List.range n).all (fun i => decide (0 ≤ u i)) && (List.range m).all (fun j => decide (0 ≤ v j))
+    && (List.range n).all (fun i => (List.range m).all fun j => decide (aff i j ≤ u i + v j))
+
+def dualBound (n m : Nat) (u v : Nat → Rat) : Rat := sumRange n u + sumRange m v
+
+def certOk (n m : Nat) (aff : Mat) (u v : Nat → Rat) (w : List (Nat × Nat)) : Bool :=
+  dualFeasible n m aff u v && validAssignment n m w && decide (value aff w = dualBound n m u v)
+
+/-- optimality test against a certified optimum -/
+def optimalByCert (tol : Rat) (n m : Nat) (aff : Mat) (u v : Nat → Rat) (w : List (Nat × Nat))
+    (out : List Entry) : Bool :=
+  certOk n m aff u v w && decide (value aff w ≤ total out + tol)
+
+/-- the clauses of the property other than optimality (used where the solver is replaced by an
+    arbitrary valid assignment, and with `optimalByCert` for large matrices) -/
+def holdsShape (n m : Nat) (aff : Mat) (out : List Entry) : Bool :=
+  (srcs out).isPerm (List.range n) && (tgts out).isPerm (List.range m) && out.all (entryOk aff)
+
+/-- potentials from a list (missing entries read as 0) -/
+def vecOf (xs : List Rat) : Nat → Rat := fun i => xs.getD i 0
+
+/-! ### canonical order of an output (the property does not pin the order of the matches)
+
+Used by the symbolic ties: the traced output and the model's are compared after sorting by
+(source key, target key); `Proofs.C07.C07_sortEntries_perm` shows that sorting only permutes. -/
+
+def entryKey (e : Entry) : Nat × Nat :=
+  ((match e.src with | none => 0 | some i => i + 1), (match e.tgt with | none => 0 | some j => j + 1))
+
+def keyLe (a b : Entry) : Bool :=
+  let ka := entryKey a; let kb := entryKey b
+  decide (ka.1 < kb.1) || (decide (ka.1 = kb.1) && decide (ka.2 ≤ kb.2))
+
+def insertEntry (e : Entry) : List Entry → List Entry
+  | [] => [e]
+  | x :: xs => if keyLe e x then e :: x :: xs else x :: insertEntry e xs
+
+def sortEntries : List Entry → List Entry
+  | [] => []
+  | x :: xs => insertEntry x (sortEntries xs)
+
 end SE.Matching
